@@ -26,7 +26,8 @@ def accumulate(ctx, case):
 
         def leaf(prefix):
             counter[0] += 1
-            return ctl.SymLeaf(ctx, '%s%d' % (prefix, counter[0]))
+            # distinct matchers can print the same (`(="wl_seat")` and `(=wl_seat)` do): printing must not be used to identify them
+            return ctl.SymLeaf(ctx, '%s%d' % (prefix, counter[0]), label='leaf' if case[0] == 'filter' else None)
         # reference state
         state = ('const', True) if which == 'filter' else ('const', False)
         saved = matcher.parse
